@@ -38,9 +38,14 @@ def _expanded_pats(rules, name_items):
     return list(dict.fromkeys(named)), list(dict.fromkeys(temps))
 
 
+MANY_NAMED = ['x', 'y', 'z'] + [f'p{i}' for i in range(11)]
+
+
 @st.composite
 def schema(draw, signing_bias=False, max_rules=7):
-    n = draw(st.integers(2, max_rules))
+    # one schema in four uses a pool of 14 pattern names, so that pattern numbers reach two digits
+    named_pool = MANY_NAMED if draw(st.integers(0, 3)) == 0 else NAMED
+    n = draw(st.integers(2, max_rules)) if named_pool is NAMED else max_rules
     ids = ['#KEY', '#r0', '#r1', '#r2', '#r3', '#r4', '#r5'][:max(2, min(7, draw(st.integers(2, 6))))]
     rules = []
     # definition order by id index: a rule may reference only ids with a SMALLER index (acyclic),
@@ -53,15 +58,20 @@ def schema(draw, signing_bias=False, max_rules=7):
         rid = ids[idx]
         temp_rule = (not signing_bias) and draw(st.integers(0, 9)) == 0
         items = []
-        for _ in range(draw(st.integers(1, 4))):
-            kind = draw(st.sampled_from(['lit', 'lit', 'pat', 'pat', 'tmp', 'ref', 'ref']))
+        for _ in range(draw(st.integers(1, 4)) if named_pool is NAMED else draw(st.integers(3, 4))):
+            kind = draw(st.sampled_from(['lit', 'lit', 'pat', 'pat', 'tmp', 'ref', 'ref'] if named_pool is NAMED
+                                        else ['lit', 'pat', 'pat', 'pat', 'pat', 'ref']))
             refable = [d for d in dict.fromkeys(defined) if ids.index(d) < idx] if not temp_rule or True else []
             if kind == 'ref' and refable:
                 items.append({'ref': draw(st.sampled_from(refable))})
                 if draw(st.integers(0, 3)) == 0:
                     items.append(dict(items[-1]))      # the same rule referenced twice in one name
             elif kind == 'pat':
-                items.append({'pat': draw(st.sampled_from(NAMED))})
+                if named_pool is MANY_NAMED:
+                    # walk through the pool so that most names occur somewhere
+                    items.append({'pat': named_pool[(len(rules) * 3 + len(items) + draw(st.integers(0, 2))) % len(named_pool)]})
+                else:
+                    items.append({'pat': draw(st.sampled_from(named_pool))})
             elif kind == 'tmp':
                 items.append({'pat': draw(st.sampled_from(TEMPS))})
             else:
